@@ -30,6 +30,7 @@ def run(prog: Program, rep: Report, tier: str):
     rule_bin(prog, rep, "C01.bin")
     from . import c01_pair
     c01_pair.rule_pair(prog, rep)
+    c01_pair.rule_spline_root(prog, rep)
     if tier == "thorough":
         from ..audit import audit_c01
         audit_c01(prog, rep)
